@@ -182,6 +182,8 @@ func c01Tags(b []byte) string {
 	return strings.Join(parts, ",")
 }
 
+var c01Tmpl string // closed replica directory with the initial chain (per worker process)
+
 var c01HeadRe = regexp.MustCompile(`volume-head-\d+\.img`)
 
 // state: chain, revision counter, live image and the allocated contents of every chain file.
@@ -354,21 +356,34 @@ func c01Exec(cfg *C01Cfg, ch vs.Chooser, trace bool, order []int) (string, *vs.R
 			_, err := s.WriteAt(c01Pat(tag, 4096), blk*4096)
 			must("write", err)
 		}
-		must("create", s.Create(c01Blocks*4096))
+		// the initial chain is built once per worker process with the real code and closed; every execution starts from
+		// a hole-preserving copy of that directory, opened by the real code
+		if c01Tmpl == "" {
+			must("create", s.Create(c01Blocks*4096))
+			must("open", s.Open())
+			must("mode", s.SetReplicaMode("RW"))
+			w(1, 0)
+			w(2, 1)
+			w(3, 2)
+			// chain: a1 (automatic, base) < a2 (automatic) < u3 (user) < a4 (automatic, latest) < head
+			must("snapshot a1", s.Snapshot("a1", false, "2020-01-01T00:00:00Z"))
+			w(4, 0)
+			must("snapshot a2", s.Snapshot("a2", false, "2020-01-01T00:00:00Z"))
+			w(5, 1)
+			must("snapshot u3", s.Snapshot("u3", true, "2020-01-01T00:00:00Z"))
+			w(6, 0)
+			must("snapshot a4", s.Snapshot("a4", false, "2020-01-01T00:00:00Z"))
+			w(7, 2)
+			must("close", s.Close())
+			t := c14Scratch() + "/c01-template"
+			os.RemoveAll(t)
+			must("template copy", ea.CopyDir(x.dir, t))
+			c01Tmpl = t
+		} else {
+			must("copy of the template", ea.CopyDir(c01Tmpl, x.dir))
+		}
 		must("open", s.Open())
 		must("mode", s.SetReplicaMode("RW"))
-		w(1, 0)
-		w(2, 1)
-		w(3, 2)
-		// chain: a1 (automatic, base) < a2 (automatic) < u3 (user) < a4 (automatic, latest) < head
-		must("snapshot a1", s.Snapshot("a1", false, "2020-01-01T00:00:00Z"))
-		w(4, 0)
-		must("snapshot a2", s.Snapshot("a2", false, "2020-01-01T00:00:00Z"))
-		w(5, 1)
-		must("snapshot u3", s.Snapshot("u3", true, "2020-01-01T00:00:00Z"))
-		w(6, 0)
-		must("snapshot a4", s.Snapshot("a4", false, "2020-01-01T00:00:00Z"))
-		w(7, 2)
 		if cfg.Init == "closed" {
 			must("close", s.Close())
 		}
